@@ -865,4 +865,5 @@ func TestC17Regression(t *testing.T) {
 	runScript(t, "unregister-clears", universe, cfg, []step{rq(1, 0, 1), {unregister: "p"}, rq(1, 0, 1)})
 	stReg.Evals(5)
 	stReg.Class("regression_scripts", 5)
+	stReg.Sample(func() interface{} { return "hand-written regression histories" })
 }
